@@ -1090,6 +1090,10 @@ def randsphere(num, ra_range=None, dec_range=None, system="eq", rng=None):
     # now in range [-90,90.0)
     dec -= 90.0
 
+    # arccos is ill conditioned near the poles; rounding must not move
+    # points outside of the requested range
+    np.clip(dec, dec_range[0], dec_range[1], dec)
+
     if system == "xyz":
         x, y, z = eq2xyz(ra, dec)
         return x, y, z
